@@ -109,6 +109,8 @@ def map_clear_by_mode(prog, f, cont_decl, modes):
 
 
 def run(prog, rep):
+    from rules import string_presence
+    string_presence.check(prog, rep, 'R18.5')
     rep.rule('R18.1a', 'sequence loaders: on every normal path the last container operation is resize(counter) and #element loads == #++counter', floor=20)
     rep.rule('R18.1b', 'set / multimap loaders: clear() precedes every insertion; map loader: clear() iff mode == Clean', floor=6)
     rep.rule('R18.1c', 'optional / unique_ptr / shared_ptr: reset exactly on the not-loaded path; strings: assign on the loaded path; '
